@@ -34,6 +34,8 @@ def build(m, scale=1.0, node_order=None, delay_jitter=0.0, name='net'):
         attr = {'weight': e['w'] / scale}
         if e['lag'] > 0:
             attr['delay'] = (e['lag'] + delay_jitter) * scale
+        if e.get('spread'):
+            attr['spread'] = e['spread'] * scale
         edges.append((f"n{e['s']}/lin{m['kind'][e['s'] - 1]}/x", f"n{e['t']}/lin{m['kind'][e['t'] - 1]}/u", None, attr))
     return CircuitTemplate(name, nodes=nodes, edges=edges)
 
@@ -63,12 +65,13 @@ def build_pop(m, scale=1.0, delay_jitter=0.0, name='popnet'):
     groups = {}
     for e in m['edges']:
         ks, kt = m['kind'][e['s'] - 1], m['kind'][e['t'] - 1]
-        W = groups.setdefault((ks, kt, e['lag']), np.zeros((len(pops[kt]), len(pops[ks]))))
+        W = groups.setdefault((ks, kt, e['lag'], e.get('spread') or 0), np.zeros((len(pops[kt]), len(pops[ks]))))
         W[pops[kt].index(e['t']), pops[ks].index(e['s'])] += e['w'] / scale
     conns = []
-    for (ks, kt, lag), W in groups.items():
+    for (ks, kt, lag, spread), W in groups.items():
         conns.append(Connectivity(f'p{ks}/lin{ks}/x', f'p{kt}/lin{kt}/u', W,
-                                  delays=((lag + delay_jitter) * scale if lag else None)))
+                                  delays=((lag + delay_jitter) * scale if lag else None),
+                                  spread=(spread * scale if spread else None)))
     return CircuitTemplate(name, populations=populations, connections=conns)
 
 
